@@ -64,6 +64,7 @@ var (
 		{"none", nil, "", "", true},
 		{"header", []string{"-header_file", "hdr.txt"}, "hdr", "", true},
 		{"header-missing", []string{"-header_file", "nope.txt"}, "", "", false},
+		{"header-is-directory", []string{"-header_file", "hdrdir"}, "", "", false},
 		{"prefix", []string{"-output_file_prefix", "p_"}, "", "p_", true},
 		{"tags", []string{"-tags", "t"}, "tags", "", true},
 	}
@@ -126,7 +127,7 @@ func checkC17(c *h.Check) {
 				total *= nprior
 			}
 			for pv := 0; pv < total; pv++ {
-				t := h.Tree{"hdr.txt": c17Header}
+				t := h.Tree{"hdr.txt": c17Header, "hdrdir/keep.txt": "a directory, not a header file\n"}
 				var pn []string
 				x := pv
 				skip := false
@@ -324,7 +325,7 @@ func checkC17(c *h.Check) {
 	c.Coverage["initial_states"] = len(initial)
 	c.Coverage["evaluations"] = ex.Transitions
 	c.Coverage["distinct_nontrivial"] = ex.States
-	c.Coverage["rule"] = fmt.Sprintf("explicit-state BFS (states = module trees by hash) from every assignment of package kinds {S1 accepted with a tag-dependent injector file, S2 accepted, F analysis fails, N no injectors} to %d package slots x prior output content chosen per slot {absent, identical, stale, identical plus trailing bytes, truncated prefix}; transitions: gen x {no option, -header_file readable, -header_file missing, -output_file_prefix, -tags, default-command form}, diff x {none, header, header missing, tags}, check and show x {none, tags}; chained to depth %d. Reference contract evaluated on every transition: exit status rules, exact file footprint, outputs equal to generating each package alone from scratch, read-only commands leave the tree hash unchanged, diff 0/1/2.", nslots, depth)
+	c.Coverage["rule"] = fmt.Sprintf("explicit-state BFS (states = module trees by hash) from every assignment of package kinds {S1 accepted with a tag-dependent injector file, S2 accepted, F analysis fails, N no injectors} to %d package slots x prior output content chosen per slot {absent, identical, stale, identical plus trailing bytes, truncated prefix}; transitions: gen x {no option, -header_file readable, -header_file missing, -header_file naming a directory, -output_file_prefix, -tags, default-command form}, diff x {none, header, header missing, tags}, check and show x {none, tags}; chained to depth %d. Reference contract evaluated on every transition: exit status rules, exact file footprint, outputs equal to generating each package alone from scratch, read-only commands leave the tree hash unchanged, diff 0/1/2.", nslots, depth)
 	c.Samples = append(c.Samples, map[string]interface{}{"initial": initial[len(initial)/2].Path, "ops": []string{"gen:header", "diff:none", "check:tags"}})
 	c.Assumptions = append(c.Assumptions, "a failing package is one whose Wire analysis fails; packages that do not type-check abort the whole load by design and are outside the alphabet", "reference output = the same binary generating the package alone from scratch (differential)")
 	if !ex.Closed {
